@@ -103,4 +103,16 @@ Proof.
   repeat split; try reflexivity. exact Hc.
 Qed.
 
+
+(* switching random on draws a complete new order over the whole tracklist, whatever was left of
+   an earlier one; switching it off leaves the tracklist and the player alone *)
+Theorem set_random_draws_full_order f w :
+  let w' := snd (run_op shuf f (SetMode 1 true) w) in
+  shuffled w' = shuf (seed w) (World.tl w) /\ random w' = true /\ World.tl w' = World.tl w
+  /\ current w' = current w /\ pstate w' = pstate w /\ seed w' = seed w + 1.
+Proof.
+  cbv zeta. cbn [run_op]. unfold set_mode, emit, do_shuffle, bind, get, modify, ret. cbn.
+  destruct (negb (Bool.eqb (random w) true)); cbn; repeat split; reflexivity.
+Qed.
+
 End P.
